@@ -255,6 +255,7 @@ def r3(ctx):
 
     concat_rule()
     observed_subsets(ctx)
+    subset_composition(ctx)
     # Screen.subset / get_plate
     f = ctx.fn("data.Screen.subset")
     r = returns(f.node)
@@ -282,6 +283,76 @@ def r3(ctx):
             want_elt = inline(gpr[0].value, {pid: ast.Name(id=lc.generators[0].target.id, ctx=ast.Load())})
             ok = U(lc.elt).replace(" ", "") == U(want_elt).replace(" ", "")
     ctx.check("R3", f"{f.site()}::all-plates", ok, "one plate per unique plate id", f"plates returns `{U(r[0].value) if r else None}`")
+
+
+def subset_composition(ctx, rule="R3"):
+    """ScreenSubset.subset(inner): the new selection over the *parent's* rows is the outer selection restricted by the inner mask.
+    The positions `where(outer)[0]` are parent rows; `where(inner)[0]` are positions inside the view.  Accepted: a copy of the outer
+    selection (or zeros) whose outer rows receive the inner mask, or zeros whose rows `outer_rows[inner]` are set.  An index vector
+    derived from the inner mask alone and used on a parent-length vector is reported; anything else is undecided."""
+    f = ctx.fn("data.ScreenSubset.subset")
+    inner = [p_ for p_ in f.params if p_ != "self"][0]
+    env = {}
+    for st in walk_own(f.node):
+        if isinstance(st, ast.Assign) and len(st.targets) == 1 and isinstance(st.targets[0], ast.Name):
+            env.setdefault(st.targets[0].id, st.value)
+
+    def base(e, depth=0):
+        """'outer' | 'inner' | 'zeros' | None : what a vector expression denotes"""
+        if depth > 6:
+            return None
+        t = U(e).replace(" ", "")
+        if t == "self.selection_vector":
+            return "outer"
+        if isinstance(e, ast.Name) and e.id == inner:
+            return "inner"
+        if isinstance(e, ast.Name) and e.id in env:
+            return base(env[e.id], depth + 1)
+        if isinstance(e, ast.Call) and isinstance(e.func, ast.Attribute) and e.func.attr in ("copy", "astype") :
+            return base(e.func.value, depth + 1)
+        if isinstance(e, ast.Call) and call_name(e) in ("np.copy", "np.array", "np.asarray") and e.args:
+            return base(e.args[0], depth + 1)
+        if isinstance(e, ast.Call) and call_name(e) in ("np.zeros_like", "np.zeros") :
+            return "zeros"
+        return None
+
+    def rows(e, depth=0):
+        """('outer-rows' | 'inner-positions' | 'outer-rows[inner]', ) for an index expression; None unknown"""
+        if depth > 6:
+            return None
+        if isinstance(e, ast.Name) and e.id in env:
+            return rows(env[e.id], depth + 1)
+        src = None
+        if isinstance(e, ast.Subscript) and isinstance(e.slice, ast.Constant) and e.slice.value == 0 and isinstance(e.value, ast.Call) \
+                and call_name(e.value) in ("np.where", "np.nonzero") and len(e.value.args) == 1:
+            src = e.value.args[0]
+        elif isinstance(e, ast.Call) and call_name(e) == "np.flatnonzero" and len(e.args) == 1:
+            src = e.args[0]
+        if src is not None:
+            b = base(src)
+            return {"outer": "outer-rows", "inner": "inner-positions"}.get(b)
+        if isinstance(e, ast.Subscript) and rows(e.value, depth + 1) == "outer-rows" and base(e.slice) == "inner":
+            return "outer-rows[inner]"
+        return None
+    stores = [n for n in walk_own(f.node) if isinstance(n, ast.Assign) and len(n.targets) == 1 and isinstance(n.targets[0], ast.Subscript) and isinstance(n.targets[0].value, ast.Name)]
+    ctx.need(len(stores) == 1, f"{f.site()}: the scatter of the inner mask was not found as one subscript store")
+    st = stores[0]
+    tgt_base = base(st.targets[0].value)
+    idx = rows(st.targets[0].slice)
+    val_inner = base(st.value) == "inner"
+    val_true = isinstance(st.value, ast.Constant) and st.value.value is True
+    ret = returns(f.node)
+    returned_ok = len(ret) == 1 and isinstance(ret[0].value, ast.Call) and len(ret[0].value.args) == 2 and U(ret[0].value.args[0]) == "self.screen" \
+        and U(ret[0].value.args[1]) == U(st.targets[0].value)
+    if idx == "inner-positions":
+        ctx.bad(rule, f"{f.site()}::composition", f"`{U(st)}`: the positions of the inner mask (positions inside the view) index a vector over the parent's rows - "
+                f"a subset of a subset selects the first rows of the screen instead of rows of the outer view unless the outer view is a prefix")
+        return
+    ok = returned_ok and ((tgt_base in ("outer", "zeros") and idx == "outer-rows" and val_inner) or (tgt_base == "zeros" and idx == "outer-rows[inner]" and val_true))
+    if not ok and (idx is None or tgt_base is None):
+        raise AnalysisError(f"{f.site()}: the composition of the two selections (`{U(st)}`) is not in a recognised form")
+    ctx.check(rule, f"{f.site()}::composition", ok, "the outer selection's rows receive the inner mask; the result is a view of the same parent",
+              f"`{U(st)}` / `{U(ret[0].value) if ret else None}` does not restrict the outer selection by the inner mask")
 
 
 def observed_subsets(ctx):
